@@ -41,14 +41,17 @@ type ReplySpec struct {
 
 // ClientHSCase is one client handshake.
 type ClientHSCase struct {
-	Scheme   string              `json:"scheme"`
-	UserInfo string              `json:"userinfo,omitempty"`
-	Host     string              `json:"host"`
-	Path     string              `json:"path"`
-	Query    string              `json:"query"`
+	Scheme   string `json:"scheme"`
+	UserInfo string `json:"userinfo,omitempty"`
+	Host     string `json:"host"`
+	Path     string `json:"path"`
+	Query    string `json:"query"`
+	// SubsEmpty: Dialer.Subprotocols is an empty non-nil slice when no
+	// subprotocol is requested.
+	SubsEmpty bool `json:"subs_empty,omitempty"`
 	// Frag: the URL carries a #fragment, which is the client's own business
 	// and never part of the request-target.
-	Frag string `json:"frag,omitempty"`
+	Frag     string              `json:"frag,omitempty"`
 	Subs     []string            `json:"subs,omitempty"`
 	Compress bool                `json:"compress"`
 	Header   map[string][]string `json:"header,omitempty"`
@@ -87,6 +90,7 @@ func genClientHSCase(t *rapid.T) ClientHSCase {
 	c.Query = rapid.SampledFrom([]string{"", "", "x=1", "a=b&c=d", "q=%20%26", "redirect=http://e.com/?x=y", "k", "a=b=c&&", "utf=%E2%9C%93", "plus=a+b"}).Draw(t, "query")
 	c.Subs = rapid.SampledFrom([][]string{nil, nil, {"chat"}, {"chat", "superchat"}, {"v1.x"}}).Draw(t, "subs")
 	c.Compress = rapid.Bool().Draw(t, "compress")
+	c.SubsEmpty = rapid.Bool().Draw(t, "subs_empty")
 	if rapid.Bool().Draw(t, "hasheader") {
 		c.Header = map[string][]string{}
 		n := rapid.IntRange(1, 3).Draw(t, "nheader")
@@ -262,6 +266,9 @@ func checkC14(c ClientHSCase, o *Obs) error {
 		return rc, nil
 	}
 	d := websocket.Dialer{NetDialContext: hook, NetDialTLSContext: hook, Subprotocols: c.Subs, EnableCompression: c.Compress, ReadBufferSize: c.RBuf}
+	if len(c.Subs) == 0 && c.SubsEmpty {
+		d.Subprotocols = []string{} // no subprotocols, said with an empty slice instead of nil
+	}
 	if c.Jar {
 		if jar, jerr := cookiejar.New(nil); jerr == nil {
 			for _, sch := range []string{"http", "https"} {
@@ -625,6 +632,9 @@ func checkClientRequest(c ClientHSCase, raw []byte, o *Obs) error {
 	default:
 		if len(protos) != 0 {
 			return fmt.Errorf("subprotocols %q requested but none configured", protos)
+		}
+		if lines := p.get("Sec-WebSocket-Protocol"); len(lines) != 0 {
+			return fmt.Errorf("no subprotocol is requested, yet the request carries a Sec-WebSocket-Protocol header (%q): an empty list is not a token list", lines)
 		}
 	}
 	exts, _ := wsref.ParseExtensions(p.get("Sec-WebSocket-Extensions"))
